@@ -31,6 +31,9 @@ mod sync;
 #[cfg(feature = "cloud")]
 mod cloud;
 
+#[cfg(all(feature = "cloud", gothenburgbitfactory_taskchampion_verif))]
+pub use cloud::verif;
+
 #[cfg(feature = "server-git")]
 mod gitsync;
 
